@@ -45,6 +45,49 @@ def o_week(A, m, day):
     return n, n // 7 + 1
 
 
+def find_thursday(s, rv, DAY, C1, J):
+    """the value the code branches on / divides by 7 that is the day of the year of the Thursday of the week, found by its form (not by the name
+    of a local): n = (day + C1) + 3 - d with d a remainder modulo 7 in [0, 6] congruent to day + C1 + J, where day + C1 is the zero-based
+    day of the year and J the Monday-based weekday of 1 January (both from the calendar definition).  Returns (n, d, reason when not found)."""
+    cands = set()
+    for t in s.tested:
+        if isinstance(t, int):
+            tm = D.TERM.get(t)
+            if tm is not None and tm[0] in ('Lt', 'Le', 'Gt', 'Ge', 'Eq', 'Ne'):
+                cands.update(x for x in tm[1:] if isinstance(x, int))
+    stack, seen = [rv[1]], set()
+    while stack:
+        v = stack.pop()
+        if v in seen or len(seen) > 200:
+            continue
+        seen.add(v)
+        tm = D.TERM.get(v)
+        if tm is not None and tm[0] != 'const':
+            if tm[0] in ('Div', 'div_euclid') and isinstance(tm[1], int):
+                cands.add(tm[1])
+            stack.extend(x for x in tm[1:] if isinstance(x, int))
+        a = D.AFF.get(v)
+        if a is not None:
+            stack.extend(y for y in a.co if isinstance(y, int))
+    why = 'no value the result depends on has the form (zero-based day of the year) + 3 - (weekday of the day)'
+    for n in sorted(cands):
+        a = D.aff_of(n)
+        if a.mod or a.co.get(DAY) != 1:
+            continue
+        ds = [y for y, c in a.co.items() if y != DAY and c == -1 and isinstance(y, int)]
+        for d in ds:
+            if not D.aff_equiv(a, D.aff_add(D.Aff({DAY: 1}, C1 + 3), D.Aff({d: 1}, 0), -1), st=s):
+                why = f'a candidate for the Thursday of the week is {a}; with the zero-based day of the year day + {C1} it is not f + 3 - d'
+                continue
+            dl, dh = D.get_iv(s, d)
+            if dl < 0 or dh > 6 or not D.aff_equiv(D.aff_of(d), D.Aff({DAY: 1}, C1 + J), 7, st=s):
+                why = (f'the weekday used for the Thursday of the week is not (day of year + {J}) mod 7 in [0, 6] '
+                       f'(1 January of this year class is weekday {J}, Monday = 0): it is {D.aff_of(d)} in [{dl}, {dh}]')
+                continue
+            return n, d, None
+    return None, None, why
+
+
 def _week_worker(job):
     from .cli import Ctx
     from .numeric import Numeric
@@ -54,7 +97,6 @@ def _week_worker(job):
     ctx = Ctx('C02', 'quick', 0)
     N = Numeric(ctx, cfg, max_disj=200, max_steps=400_000)
     I = N.I
-    I.watch[WY] = ['f', 'd', 'n']
     I.return_partition[WY] = lambda I_, st, v: id(st)
     KV = D.sym_vid(0, KMAX, 'cycle')
     DAY = D.sym_vid(1, 31, 'day')
@@ -97,23 +139,12 @@ def _week_worker(job):
         msg = None
         for s, rv in outs:
             npaths += 1
-            loc = {}
-            for e in s.trace:
-                if isinstance(e, tuple) and e and e[0] == 'wset' and e[1] == WY and e[3] is not None and e[3][0] == 'i':
-                    loc[e[2]] = e[3][1]
-            if rv[0] != 'i' or not {'f', 'd', 'n'} <= set(loc):
-                msg = msg or 'the day of the year f, the weekday d or the Thursday n is not tracked on a path'
+            if rv[0] != 'i':
+                msg = msg or 'the result is not an integer'
                 continue
-            f, d, n = loc['f'], loc['d'], loc['n']
-            if not D.aff_equiv(D.aff_of(f), D.Aff({DAY: 1}, C1), st=s):
-                msg = msg or f'f = {D.aff_of(f)} is not the zero-based day of the year (day + {C1})'
-                continue
-            dl, dh = D.get_iv(s, d)
-            if dl < 0 or dh > 6 or not D.aff_equiv(D.aff_of(d), D.Aff({DAY: 1}, C1 + J), 7, st=s):
-                msg = msg or f'd is not the Monday-based weekday of the day, (day of year + {J}) mod 7 in [0, 6]: {D.aff_of(d)} in [{dl}, {dh}]'
-                continue
-            if not D.aff_equiv(D.aff_of(n), D.aff_add(D.Aff({DAY: 1}, C1 + 3), D.aff_of(d), -1), st=s):
-                msg = msg or 'n is not f + 3 - d (the day of the year of the Thursday of the week)'
+            n, d, why = find_thursday(s, rv, DAY, C1, J)
+            if n is None:
+                msg = msg or why
                 continue
             nl, nh = D.get_iv(s, n)
             rl, rh = D.get_iv(s, rv[1])
